@@ -862,6 +862,7 @@ PROPS["C09"]["rule_text"] += ("; numclone: boundary integers of every integer ki
 for _pid, _why in (("C04", "one long-lived cbor Unmarshaller / Decoder over several items, including items after failed ones"),
                    ("C13", "one long-lived obj Unmarshaller re-bound after completed, rejected and abandoned values"),
                    ("C05", "one long-lived json Unmarshaller / Decoder over several items, including items after failed and truncated ones"),
+                   ("C08", "the same value marshalled again and again by one long-lived Marshaller, with abandoned and refused runs in between"),
                    ("C07", "one long-lived obj Marshaller over several values, including values after runs abandoned at every Write position"),
                    ("C14", "one long-lived encoder (through Marshaller) over several items, including items after empty containers and abandoned items")):
     PROPS[_pid]["streams"].append(dict(name="hist", gen="hist", rule="hist"))
@@ -914,3 +915,21 @@ PROPS["C07"]["theorems"] += ["Refmt.C17ObjMarshal.marshaller_refines_fixed"]
 PROPS["C07"]["extra_modules"] = PROPS["C07"].get("extra_modules", []) + ["RefmtProofs.Props.C17ObjMarshal"]
 PROPS["C07"]["rule_text"] += ("; marshalm: every fourth marshal case again through the stateful model of the marshaller (from an instance that "
     "abandoned a run after three tokens), and the chained-transform atlas 90, which the library must refuse without panicking")
+
+# C17 / C13: the stateful model of obj.Unmarshaller (all machines; refinement proved for the scalar fragment, reuse for every
+# atlas), tied through the unmarshal stream (op unmarshalm: every rendering and one mutation of it, from an instance abandoned
+# after three tokens of the same input)
+PROPS["C17"]["theorems"] += ["Refmt.C17ObjUnmarshal.unmarshaller_refines_partial", "Refmt.C17ObjUnmarshal.reused_eq_fresh",
+    "Refmt.C17ObjUnmarshal.unmarshaller_refines_statement_false"]
+PROPS["C17"]["extra_modules"] = PROPS["C17"].get("extra_modules", []) + ["RefmtProofs.Props.C17ObjUnmarshal"]
+PROPS["C17"]["claim"] += (" Since C17ObjUnmarshal the object UNMARSHALLER has a stateful model too (Model/Obj/UnmarshalMach.lean, every machine: "
+    "pointers, primitives with their range checks, untyped slots with tags, maps, slices, arrays, struct maps, transforms, keyed unions, "
+    "error thunks; targets as slots handed back to the parent on done). Proved: reused_eq_fresh for every atlas, and the refinement of "
+    "the functional model from every dirty state for scalar targets behind any number of pointers (unmarshaller_refines_partial); the "
+    "multi-token simulation for containers is NOT proved (unmarshaller_refines_fixed_statement is kept as a definition) - for those the "
+    "stateful model is tied to the code and to the functional model by the correspondence check only (about 9000 unmarshalm cases per "
+    "quick run, none differing). The full statement is false (clash_chain, clash_union): a union whose member is a union made the real "
+    "code overflow its stack; repaired in /repo (60df5ae).")
+PROPS["C13"]["rule_text"] += ("; unmarshalm / unmarshalr: every marshaller rendering and one mutation of it again through the stateful model of "
+    "the unmarshaller, from an instance abandoned after three tokens; atlas 90 (chained transforms, a transform receiving a pointer type, "
+    "a union whose member is a union), which the library must refuse without panicking or overflowing the stack")
